@@ -68,8 +68,10 @@ def find_and_delete(ctx, script, pattern):
 
 
 class Checker(object):
-    def __init__(self, ctx, tx, idx):
-        self.ctx, self.tx, self.idx = ctx, tx, idx
+    def __init__(self, ctx, tx, idx, fields=None):
+        """fields: reference field values of tx; when given, the signature hash is computed by the reference
+        (refs/ref_sighash.py) instead of the library's RawSignatureHash"""
+        self.ctx, self.tx, self.idx, self.fields = ctx, tx, idx, fields
 
     def check_sig(self, sig, pubkey, script_code):
         ctx = self.ctx
@@ -79,6 +81,22 @@ class Checker(object):
         der = sig[:len(sig) - 1]
         if len(der) == 0:
             return False
+        if self.fields is not None:
+            from refs import ref_sighash as SH
+            toks, ok = RS.tokenize(ctx, script_code)
+            stripped = ctx.B(b'')
+            last = 0
+            for (op, data, s0, e0) in toks:
+                if data is None and ctx.is_true(op == 0xab):
+                    continue
+                stripped = stripped + script_code[s0:e0]
+                last = e0
+            if not ok:
+                # FindAndDelete semantics on a script with a malformed tail: the remainder is kept verbatim
+                stripped = stripped + script_code[(toks[-1][3] if toks else 0):]
+            r = SH.legacy_preimage(ctx, self.fields, stripped, self.idx, hashtype)
+            h = ctx.B(SH.ONE) if r[0] == 'one' else ctx.dsha256(r[1])
+            return ctx.V(pubkey, h, der)
         S = ctx.script
         (h, err) = S.RawSignatureHash(S.CScript(script_code), self.tx, self.idx, hashtype)
         return ctx.V(pubkey, h, der)
